@@ -494,7 +494,69 @@ pub fn run(a: &Args, rep: &mut Report) {
             mon::tick()
         }
     }
+    // a value whose encoding does not fit a 32-bit frame length (thorough tier, one shard, only
+    // with enough free memory: the writer's scratch buffer really holds the 4 GiB)
+    if a.thorough() && a.shard == 3 % a.nshards {
+        huge_value_write(rep);
+    }
     rep.sample(J::obj().with("stream", J::s("00000002810100000001")).with("script", J::s("1,I,2,1,I,I,3,…")).with("expect", J::s("[Value([1]), UnexpectedEof]")));
+}
+
+struct CountSink(u64);
+impl std::io::Write for CountSink {
+    fn write(&mut self, b: &[u8]) -> io::Result<usize> {
+        self.0 += b.len() as u64;
+        Ok(b.len())
+    }
+    fn flush(&mut self) -> io::Result<()> {
+        Ok(())
+    }
+}
+
+fn mem_available_kib() -> u64 {
+    std::fs::read_to_string("/proc/meminfo").ok().and_then(|t| t.lines().find(|l| l.starts_with("MemAvailable:")).and_then(|l| l.split_whitespace().nth(1).and_then(|x| x.parse().ok()))).unwrap_or(0)
+}
+
+/// "The writer never emits a frame larger than its maximum": a value of 2^32 + 100 payload bytes
+/// can never be framed (the length prefix has 32 bits); whatever the limit, it must be refused with
+/// InvalidLen and nothing may reach the sink.
+fn huge_value_write(rep: &mut Report) {
+    if mem_available_kib() < 28 * 1024 * 1024 {
+        rep.note("huge-value write skipped: less than 28 GiB of memory available");
+        return;
+    }
+    let n = (1usize << 32) + 100;
+    let region = match mon::ZeroRegion::new(n) {
+        Some(r) => r,
+        None => {
+            rep.note("huge-value write skipped: cannot map the zero region");
+            return;
+        }
+    };
+    mon::set_alloc_cap(20 << 30);
+    for limit in [None, Some(u32::MAX), Some(200u32)] {
+        rep.eval();
+        let r = mon::guarded(|| {
+            let mut w = Writer::new(CountSink(0));
+            if let Some(l) = limit {
+                w.set_max_len(l);
+            }
+            let bs: &minicbor::bytes::ByteSlice = region.as_slice().into();
+            let r = w.write(bs);
+            let sunk = w.writer().0;
+            (r.map_err(|e| matches!(e, Error::InvalidLen)), sunk)
+        });
+        match r {
+            Err(p) => rep.violation(&format!("{}|writer|huge-value-panic", ID), J::obj().with("what", J::s(p.message)), vec![]),
+            Ok((Err(true), 0)) => rep.count("writer/value beyond a 32-bit frame length refused with InvalidLen"),
+            Ok((res, sunk)) => rep.violation(
+                &format!("{}|writer|huge-value", ID),
+                J::obj().with("what", J::s(format!("writing a value of 2^32+109 encoded bytes with max_len {:?} returned {:?} (Err(true) = InvalidLen) and {} bytes reached the sink", limit, res, sunk))),
+                vec![],
+            ),
+        }
+    }
+    mon::set_alloc_cap(mon::ALLOC_HARD_CAP);
 }
 
 pub fn replay(a: &Args, rep: &mut Report) {
